@@ -305,3 +305,5 @@ FINDINGS = []
 SUBS = [
     Sub("geometry", lambda tier: geometry_cases(tier), check_geometry, quick=1000, thorough=6000),
 ]
+
+RULE += ' Also: narrow-integer contents whose running sum leaves the type; irregular bins at 1e-9 / 1e-12 scale; merges on gapped axes whose runs do not span a gap.'
